@@ -394,4 +394,68 @@ example : (chCtx.plug (Tree.node 2 [])).ids.Nodup ∧ ([] : List Nat).Perm (([] 
 example : ∃ (c : Ctx) (ks : List Tree), Tree.node 0 [Tree.node 1 [Tree.node 2 []]] = c.plug (Tree.node 2 ks) :=
   Ctx.exists_ctx _ 2 (by decide)
 
+/-! ### `two_site_heff_is_projected_hamiltonian`: the chain 0 — 1 — 2 — 3 (root 0), target 1, next 2 -/
+
+def tsT : Node := ⟨some 0, [2]⟩
+def tsX : Node := ⟨some 1, [3]⟩
+def tsBlk3 : Expr Leg Int :=
+  Expr.dot (Expr.dot (chKet 3 ⟨some 2, []⟩) (chOp 3 ⟨some 2, []⟩) [physIn 3]) (chBra 3 ⟨some 2, []⟩) [physOut 3]
+/-- the program of `_contract_all_except_two_nodes` on top of the block programs -/
+def tsHeff : Expr Leg Int :=
+  Expr.dot (Expr.dot (chOp 1 tsT) lkBlk0 [(Leg.gOp 1 0, Leg.gOp 0 1)])
+    (Expr.dot (chOp 2 tsX) tsBlk3 [(Leg.gOp 2 3, Leg.gOp 3 2)]) [(Leg.gOp 1 2, Leg.gOp 2 1)]
+def tsE : Expr Leg Int := Expr.dot (chKet 0 ⟨none, [1]⟩) (chKet 3 ⟨some 2, []⟩) []
+def tsH : Expr Leg Int :=
+  Expr.dot (Expr.dot (Expr.dot (chOp 0 ⟨none, [1]⟩) (chOp 1 tsT) [(Leg.gOp 0 1, Leg.gOp 1 0)]) (chOp 2 tsX)
+    [(Leg.gOp 1 2, Leg.gOp 2 1)]) (chOp 3 ⟨some 2, []⟩) [(Leg.gOp 2 3, Leg.gOp 3 2)]
+def tsB : Expr Leg Int := Expr.dot (chBra 0 ⟨none, [1]⟩) (chBra 3 ⟨some 2, []⟩) []
+
+theorem tsBlk3_swf : tsBlk3.SWF := by
+  refine ⟨⟨demoLeaf_swf _ ?_, demoLeaf_swf _ ?_, ?_, ?_, ?_, ?_⟩, demoLeaf_swf _ ?_, ?_, ?_, ?_, ?_⟩ <;> decide
+
+/-- every hypothesis of `two_site_heff_is_projected_hamiltonian`: the structural ones, the block records the model
+produces (`[physIn 0, physOut 0]` from `contract_any(0, 1)`, `[physOut 3, physIn 3]` from `contract_leaf`) are the
+sandwich records of the one-node components, and the programs `tsHeff`, `tsE`, `tsH`, `tsB` -/
+example : tsT.nbrs.Nodup ∧ tsX.nbrs.Nodup ∧ 2 ∈ tsT.nbrs ∧ 1 ∈ tsX.nbrs ∧ (∀ n ∈ tsX.nbrs, n ∉ tsT.nbrs) ∧
+    (Node.mk (some 0) [3]).nbrs.Perm (tsT.nbrs.filter (· ≠ 2) ++ tsX.nbrs.filter (· ≠ 1)) ∧
+    (∀ n ∈ tsT.nbrs.filter (· ≠ 2), (unordL ((fun _ => [physIn 0, physOut 0]) n)).Perm
+      (unordL (compRecord (fun n => [physOut n]) (fun n => [physIn n]) (fun _ => []) (fun _ => []) (fun _ => []) n))) ∧
+    (∀ n ∈ tsX.nbrs.filter (· ≠ 1), (unordL ((fun _ => [physOut 3, physIn 3]) n)).Perm
+      (unordL (compRecord (fun n => [physOut n]) (fun n => [physIn n]) (fun _ => []) (fun _ => []) (fun _ => []) n))) ∧
+    tsHeff.SWF ∧ tsE.WF ∧ tsH.WF ∧ tsB.WF ∧
+    (∀ l ∈ tsE.labels, l ∉ tsH.labels) ∧ (∀ l ∈ tsE.labels, l ∉ tsB.labels) ∧ (∀ l ∈ tsH.labels, l ∉ tsB.labels) ∧
+    tsHeff.binds.Perm [physIn 0, physOut 0, (.gOp 1 0, .gOp 0 1), physOut 3, physIn 3, (.gOp 2 3, .gOp 3 2),
+      (.gOp 1 2, .gOp 2 1)] ∧
+    (unordL tsE.binds).Perm (unordL ([] ++ [])) ∧
+    (unordL tsH.binds).Perm (unordL (twoOpPairs 1 2 [0] [3] ++ ([] ++ []))) ∧
+    (unordL tsB.binds).Perm (unordL ([] ++ [])) ∧
+    (∀ q ∈ [physIn 0] ++ [physIn 3], q.1 ∈ tsE.free ∧ q.2 ∈ tsH.free) ∧
+    (∀ q ∈ [physOut 0] ++ [physOut 3],
+      (q.1 ∈ tsH.free ∧ q.1 ∉ ([physIn 0] ++ [physIn 3]).map Prod.snd) ∧ q.2 ∈ tsB.free) ∧
+    (∀ σ, tsHeff.leafProd σ = tsE.leafProd σ * tsH.leafProd σ * tsB.leafProd σ) := by
+  have hE : tsE.SWF := ⟨demoLeaf_swf _ (by decide), demoLeaf_swf _ (by decide), by decide, by decide, by decide,
+    by decide⟩
+  have hB : tsB.SWF := ⟨demoLeaf_swf _ (by decide), demoLeaf_swf _ (by decide), by decide, by decide, by decide,
+    by decide⟩
+  have hH : tsH.SWF := ⟨⟨⟨demoLeaf_swf _ (by decide), demoLeaf_swf _ (by decide), by decide, by decide, by decide,
+    by decide⟩, demoLeaf_swf _ (by decide), by decide, by decide, by decide, by decide⟩, demoLeaf_swf _ (by decide),
+    by decide, by decide, by decide, by decide⟩
+  have he : tsHeff.SWF := ⟨⟨demoLeaf_swf _ (by decide), lkBlk0_swf, by decide, by decide, by decide, by decide⟩,
+    ⟨demoLeaf_swf _ (by decide), tsBlk3_swf, by decide, by decide, by decide, by decide⟩, by decide, by decide,
+    by decide, by decide⟩
+  refine ⟨by decide, by decide, by decide, by decide, by decide, by decide, ?_, ?_, he, hE.wf, hH.wf, hB.wf,
+    by decide, by decide, by decide, by decide, by decide, by decide, by decide, by decide, by decide, ?_⟩
+  · intro n hn
+    have : n = 0 := by simpa [tsT, Node.nbrs] using hn
+    subst this
+    decide
+  · intro n hn
+    have : n = 3 := by simpa [tsX, Node.nbrs] using hn
+    subst this
+    decide
+  · intro σ
+    simp only [tsHeff, tsBlk3, lkBlk0, tsE, tsH, tsB, chKet, chOp, chBra, demoLeaf, Expr.leafProd, Expr.leaves, prodL,
+      List.map_cons, List.map_nil, List.cons_append, List.nil_append, mul_one]
+    ring
+
 end Ptn.C05.Heff
